@@ -51,6 +51,7 @@ PARAM_POOL = [
     ("sid", "cookie", {"type": "string"}),
     ("limit", "query", {"type": "integer", "maximum": 50}),
 ]
+HOSTILE_KEYS = ["null", "~", "1.0", "2.50", ".5", "1e3", "1.5e3", ".inf", ".nan", "0x1F", "0o17", "017", "1_000", "2020-01-01", "2021-03-04T05:06:07Z", "True", "NO", "y", "n", "12:30:15", "+1", "-0"]
 YAML_TOKENS = ["200", "404", "on", "off", "yes", "no", "2020-01-01", "2021-03-04T05:06:07Z", "1e3", "null", "true", "0o17"]
 
 
@@ -64,6 +65,8 @@ def gen_document(rng, version):
         "Node": {"type": "object", "properties": {"next": {"$ref": "#/components/schemas/Node" if three else "#/definitions/Node"}, "v": {"type": "integer"}}},
         "Word": {"type": "string", "minLength": 2},
         "on": {"type": "object", "properties": {"on": {"type": "boolean"}, "off": {"type": "string", "example": "2020-01-01"}, "yes": {"type": "string", "enum": ["no", "2021-03-04T05:06:07Z"]}}},
+        # property names that YAML 1.1 reads as null / float / int / timestamp when they are not quoted
+        "odd": {"type": "object", "properties": {k: {"type": "integer"} for k in rng.sample(HOSTILE_KEYS, 4)}},
     }
     param_ref_prefix = "#/components/parameters/" if three else "#/parameters/"
     schema_ref_prefix = "#/components/schemas/" if three else "#/definitions/"
@@ -138,7 +141,7 @@ def gen_document(rng, version):
             if params:
                 op["parameters"] = params
             if method in ("post", "put"):
-                body_schema = rng.choice([{"$ref": schema_ref_prefix + "Node"}, {"type": "object", "properties": {"a": {"$ref": schema_ref_prefix + "Word"}}}, {"$ref": schema_ref_prefix + "on"}])
+                body_schema = rng.choice([{"$ref": schema_ref_prefix + "Node"}, {"type": "object", "properties": {"a": {"$ref": schema_ref_prefix + "Word"}}}, {"$ref": schema_ref_prefix + "on"}, {"$ref": schema_ref_prefix + "odd"}])
                 if three:
                     media = rng.sample(["application/json", "application/xml", "text/plain", "application/x-www-form-urlencoded"], rng.randint(1, 2))
                     op["requestBody"] = {"required": rng.random() < 0.7, "content": {m: {"schema": copy.deepcopy(body_schema)} for m in media}}
@@ -316,6 +319,7 @@ class Checker:
             "subscript": lambda: self.subscript(schema, doc, ref, how),
             "by_id": lambda: self.by_id(schema, doc, ref, how),
             "by_ref": lambda: self.by_ref(schema, doc, ref, how),
+            "interleaved": lambda: self.interleaved(schema, doc, ref, how),
         }
         for name in order:
             v, n = accessors[name]()
@@ -359,6 +363,31 @@ class Checker:
             if label not in ref:
                 viols.append(("C08/undocumented-operation-offered", label))
         return viols, len(seen)
+
+    def interleaved(self, schema, doc, ref, how):
+        """Look operations up while an iteration over all operations is suspended (the engine does this between phases
+        and with several workers): both views must still agree with the document."""
+        viols, n = [], 0
+        pending = [label for label in ref if not label.startswith("* ")]
+        seen = set()
+        for result in schema.get_all_operations():
+            for label in pending[:2]:
+                method, template = label.split(" ", 1)
+                viols += self._lookup(lambda: schema[template][method], label, ref[label], doc, how, "subscript-during-iteration")
+                n += 1
+            pending = pending[2:]
+            if isinstance(result, self.Ok):
+                op = result.ok()
+                seen.add(op.label)
+                r = ref.get(op.label)
+                if r is None:
+                    viols.append(("C08/undocumented-operation-offered", op.label))
+                elif r != "ERROR":
+                    viols += compare(op.label, r, describe_operation(op, doc), how + ":iterate-with-lookups")
+        for label, r in ref.items():
+            if not label.startswith("* ") and r != "ERROR" and label not in seen:
+                viols.append(("C08/operation-silently-dropped", f"{label} [{how}] (iteration interleaved with lookups)"))
+        return viols, n
 
     def _lookup(self, getter, label, r, doc, how, kind):
         try:
@@ -441,6 +470,8 @@ def to_hostile_yaml(doc):
     text = yaml.safe_dump(doc, sort_keys=False, default_flow_style=False)
     # keys: '200': -> 200:   'on': -> on:
     text = re.sub(r"^(\s*)'(200|404|on|off|yes|no)':", r"\1\2:", text, flags=re.M)
+    hostile = "|".join(re.escape(k) for k in HOSTILE_KEYS)
+    text = re.sub(rf"^(\s*)'({hostile})':", r"\1\2:", text, flags=re.M)
     # date-like values
     text = re.sub(r"'(2020-01-01|2021-03-04T05:06:07Z)'", r"\1", text)
     return text
@@ -466,6 +497,38 @@ def write_multifile(doc, scratch):
             for v in node:
                 rewrite(v, rel)
 
+    moved = doc.get("components", {}).get("x-items", {}).pop("Moved", None) if three else None
+    if moved is not None:
+        # the referenced path item lives in another directory; its references are relative to its own file, and a
+        # decoy with the same relative name but different definitions sits next to it
+        os.makedirs(os.path.join(scratch, "items", "shared"), exist_ok=True)
+        rewrite(moved, "../shared/params.json")
+
+        def reroot(node):
+            if isinstance(node, dict):
+                if isinstance(node.get("$ref"), str) and node["$ref"].startswith("#/"):
+                    node["$ref"] = "../root.json" + node["$ref"]
+                for v in node.values():
+                    reroot(v)
+            elif isinstance(node, list):
+                for v in node:
+                    reroot(v)
+
+        reroot(moved)
+        with open(os.path.join(scratch, "items", "moved.json"), "w") as fd:
+            json.dump({"Moved": moved}, fd)
+        decoy = copy.deepcopy(params)
+        for entry in decoy.values():
+            if "$ref" in entry:
+                entry["$ref"] = "params.json#/" + entry["$ref"][len(prefix):] if entry["$ref"].startswith(prefix) else entry["$ref"]
+            elif "schema" in entry:
+                entry["schema"] = {"type": "boolean", "description": "decoy"}
+                entry["required"] = True
+        with open(os.path.join(scratch, "items", "shared", "params.json"), "w") as fd:
+            json.dump(decoy, fd)
+        for template, item in doc["paths"].items():
+            if item == {"$ref": "#/components/x-items/Moved"}:
+                doc["paths"][template] = {"$ref": "items/moved.json#/Moved"}
     rewrite(doc["paths"], "shared/params.json")
     rewrite(doc.get("components", {}).get("x-items", {}), "shared/params.json")
     rewrite(params, "params.json")
@@ -507,6 +570,8 @@ def run_shard(spec, emit):
             if how == "multifile" and facts["malformed"]:
                 continue
             my_orders = orders if how == "dict" else rng.sample(orders, 4)
+            extra = rng.sample(orders, 2)
+            my_orders = list(my_orders) + [("interleaved",) + extra[0], extra[1] + ("interleaved",), ("interleaved",)]
             for order in my_orders:
                 scratch = tempfile.mkdtemp(prefix="verif-c08-")
                 try:
